@@ -247,13 +247,13 @@ Fixpoint run (s : state) (acts : list action) : option (state * list obs) :=
     node table and presence maps ARBITRARY (the local map may be stale) *)
 Fixpoint nodupb (l : list Z) : bool :=
   match l with [] => true | x :: t => negb (existsb (Z.eqb x) t) && nodupb t end.
-Definition wf_init (s : state) : bool :=
-  nodupb (map c_sess (st_clients s)) &&
-  forallb (fun c => (c_sess c <? st_next s) && is_idle (c_pc c)) (st_clients s).
-
 (** presence maps have unique keys (a dict) *)
 Fixpoint pm_nodup (m : pmap) : bool :=
   match m with [] => true | e :: t => negb (existsb (pe_is (pe_app e) (pe_path e)) t) && pm_nodup t end.
+
+Definition wf_init (s : state) : bool :=
+  nodupb (map c_sess (st_clients s)) &&
+  forallb (fun c => (c_sess c <? st_next s) && is_idle (c_pc c) && pm_nodup (c_pmap c)) (st_clients s).
 
 (** * Correspondence: flattened observables *)
 Definition zb (b : bool) : Z := if b then 1 else 0.
@@ -269,7 +269,7 @@ Fixpoint pe_insert (x : pentry) (l : list pentry) : list pentry :=
   match l with [] => [x] | y :: t => if pe_leb x y then x :: l else y :: pe_insert x t end.
 Definition pe_sort (l : list pentry) : list pentry := fold_right pe_insert [] l.
 Definition dump_client (c : client) : list Z :=
-  [c_sess c; zb (c_alive c); zb (is_idle (c_pc c)); Z.of_nat (length (c_pmap c))]
+  [c_sess c; zb (c_alive c); zb (c_alive c && is_idle (c_pc c)); Z.of_nat (length (c_pmap c))]
   ++ flat_map (fun e => [pe_app e; pe_path e; pe_rid e]) (pe_sort (c_pmap c)).
 Definition dump_state (s : state) : list Z :=
   Z.of_nat (length (st_zk s)) :: flat_map (fun n => [n_path n; n_data n; n_owner n]) (st_zk s)
